@@ -58,6 +58,9 @@ func moduleFile(k int, name string, deps [][2]interface{}, depNames []string, pu
 	// a definition whose initialiser is a call: top-level calls also exist in files reached along several paths
 	st = append(st, def("Cached", bin("+", call("helper"), il(0))))
 	if !pure {
+		// the file's first statement is top-level code and its last statement a definition (what follows the
+		// definitions of a file that was already seen must not be mistaken for part of them)
+		st = append([]Stmt{pr(sl("load"), il(K))}, st...)
 		st = append(st, pr(sl("init"), il(K), call("Get"), call("Deep")), set("Count", bin("+", vr("Count"), il(1))), ExprStmt{call("Bump", il(2))})
 		// change the state of every imported file (its public and private globals) before any other importer is processed
 		for _, d := range deps {
@@ -66,6 +69,7 @@ func moduleFile(k int, name string, deps [][2]interface{}, depNames []string, pu
 		}
 		st = append(st, pr(sl("touch"), call("Touch")), pr(sl("hits"), vr("Hits"), Len{vr("trail")}))
 		st = append(st, ExprStmt{call("tail")}, pr(sl("init-done"), il(K), vr("Count")))
+		st = append(st, def("Last", bin("+", vr("Count"), il(0))), fn("Closing", nil, []Type{TInt}, ret(vr("Last"))))
 	}
 	if salt >= 0 {
 		st = append(st, RawStmt{fmt.Sprintf("// variant %d", salt)})
@@ -345,13 +349,19 @@ func checkC09(c *Check) {
 		}
 	})
 	// negative cases
-	lib := "func Pub() int {\n\treturn 1\n}\nfunc priv() int {\n\treturn 2\n}\nHidden := 3\n"
+	lib := "func Pub() int {\n\treturn 1\n}\nfunc priv() int {\n\treturn 2\n}\nfunc _under() int {\n\treturn 5\n}\nfunc _Upper() int {\n\treturn 6\n}\nfunc mIXED() int {\n\treturn 7\n}\nfunc z9() int {\n\treturn 8\n}\nHidden := 3\n_secret := 4\n"
 	neg := []struct {
 		key, main string
 		extra     map[string]string
 		accept    bool
 	}{
 		{"private-call", "import m \"lib.tsh\"\n\nprint(m.priv())\n", map[string]string{"lib.tsh": lib}, false},
+		{"private-call-underscore", "import m \"lib.tsh\"\n\nprint(m._under())\n", map[string]string{"lib.tsh": lib}, false},
+		{"private-call-underscore-upper", "import m \"lib.tsh\"\n\nprint(m._Upper())\n", map[string]string{"lib.tsh": lib}, false},
+		{"private-call-lower-then-upper", "import m \"lib.tsh\"\n\nprint(m.mIXED())\n", map[string]string{"lib.tsh": lib}, false},
+		{"private-call-letter-digit", "import m \"lib.tsh\"\n\nprint(m.z9())\n", map[string]string{"lib.tsh": lib}, false},
+		{"private-call-as-statement-in-function", "import m \"lib.tsh\"\n\nfunc f() {\n\tm._under()\n}\nf()\n", map[string]string{"lib.tsh": lib}, false},
+		{"imported-underscore-variable-unqualified", "import m \"lib.tsh\"\n\nprint(_secret)\n", map[string]string{"lib.tsh": lib}, false},
 		{"public-call", "import m \"lib.tsh\"\n\nprint(m.Pub())\n", map[string]string{"lib.tsh": lib}, true},
 		{"missing-alias", "import \"lib.tsh\"\n\nprint(1)\n", map[string]string{"lib.tsh": lib}, false},
 		{"unknown-alias", "import m \"lib.tsh\"\n\nprint(x.Pub())\n", map[string]string{"lib.tsh": lib}, false},
